@@ -4,7 +4,10 @@ package evm
 // of genExecFun over a real in-memory StateDB, one transaction of an arbitrary class.
 
 import (
+	"crypto/ecdsa"
 	"math/big"
+
+	"github.com/dappledger/AnnChain/eth/crypto"
 
 	"github.com/dappledger/AnnChain/eth/common"
 	estate "github.com/dappledger/AnnChain/eth/core/state"
@@ -16,13 +19,41 @@ import (
 	gtypes "github.com/dappledger/AnnChain/gemmill/types"
 )
 
+// The sender: natively a real secp256k1 key (transactions are really signed and recovered);
+// under the engine signature recovery (cgo) is redirected to vC09Recover.
+var (
+	vC09Key  *ecdsa.PrivateKey
+	vC09From common.Address
+)
+
+func vC09Recover(sighash common.Hash, R, S, Vb *big.Int, homestead bool) (common.Address, error) {
+	return vC09From, nil
+}
+
+func vC09Sign(tx *etypes.Transaction) *etypes.Transaction {
+	if vSymbolic() {
+		return tx
+	}
+	signed, err := etypes.SignTx(tx, etypes.FrontierSigner{}, vC09Key)
+	if err != nil {
+		panic(err)
+	}
+	return signed
+}
+
 func vC09App() *EVMApp {
+	if vSymbolic() {
+		vC09From = vC19Addr(1)
+	} else {
+		vC09Key, _ = crypto.GenerateKey()
+		vC09From = crypto.PubkeyToAddress(vC09Key.PublicKey)
+	}
 	db := ethdb.NewMemDatabase()
 	st, err := estate.New(common.Hash{}, estate.NewDatabase(db))
 	if err != nil {
 		panic(err)
 	}
-	return &EVMApp{Signer: vC19Signer{}, stateDb: db, currentState: st, chainConfig: params.MainnetChainConfig}
+	return &EVMApp{Signer: etypes.FrontierSigner{}, stateDb: db, currentState: st, chainConfig: params.MainnetChainConfig}
 }
 
 func vC09KVPayload(kv *rtypes.KV, decodable bool) []byte {
@@ -43,8 +74,8 @@ func vC09KVPayload(kv *rtypes.KV, decodable bool) []byte {
 func VerifHarness_C09_exec_step() {
 	app := vC09App()
 	st := app.currentState
-	sender := vC19Addr(1)
-	pre := uint64(vNondetRange("prenonce", 0, 3))
+	sender := vC09From
+	pre := uint64(vNondetLen("prenonce", 0, 2))
 	st.SetNonce(sender, pre)
 	st.AddBalance(sender, big.NewInt(1000000))
 	// something already accumulated for this block
@@ -64,16 +95,14 @@ func VerifHarness_C09_exec_step() {
 	case 1: // key-value transaction
 		kv := &rtypes.KV{Key: []byte("k1"), Value: []byte("v1")}
 		payload := vC09KVPayload(kv, vNondetBool("decodable"))
-		tx = etypes.NewTransaction(txNonce, common.Address{}, nil, 0, nil, append([]byte{}, payload...))
-		// sender is recovered from the first payload byte by the fake signer: make it account 1
-		vAssume(vC19Addr(int(tx.Data()[0])) == sender || true)
+		tx = vC09Sign(etypes.NewTransaction(txNonce, common.Address{}, nil, 0, nil, append([]byte{}, payload...)))
 	case 2: // plain EVM call to an account without code, no value, gas price 0
 		to := vC19Addr(9)
-		tx = etypes.NewTransaction(txNonce, to, big.NewInt(0), uint64(vNondetLen("gas", 0, 1))*30000, big.NewInt(0), []byte{1})
+		tx = vC09Sign(etypes.NewTransaction(txNonce, to, big.NewInt(0), uint64(vNondetLen("gas", 0, 1))*30000, big.NewInt(0), []byte{1}))
 	}
 	if kind == 3 { // contract creation whose init code fails (INVALID / REVERT / empty-return success)
 		codes := [][]byte{{0xfe}, {0x60, 0x00, 0x60, 0x00, 0xfd}, {0x00}}
-		tx = etypes.NewContractCreation(txNonce, big.NewInt(0), 200000, big.NewInt(0), codes[vNondetLen("initcode", 0, 2)])
+		tx = vC09Sign(etypes.NewContractCreation(txNonce, big.NewInt(0), 200000, big.NewInt(0), codes[vNondetLen("initcode", 0, 2)]))
 	}
 	nr, nk := len(app.receipts), len(app.kvs)
 	senderOf := func() common.Address {
@@ -86,6 +115,7 @@ func VerifHarness_C09_exec_step() {
 	from := senderOf()
 	before := st.GetNonce(from)
 	err := exec(0, raw, tx) // a panic here is a finding (T1)
+	vObserve("exec-error", err)
 	ok := end(raw, err)
 	vAssert(ok, "end-continues")
 	after := st.GetNonce(from)
